@@ -97,7 +97,7 @@ def gen_maptarget(run, n=240):
     ok = run.generate('maptarget2v(expressions/source_code.py: NixSourceCode._resolve_target_set, frame matched literally)',
                       ['-W', 'ignore', os.path.join(VERIF, 'tools', 'maptarget2v.py'), REPO], 'MapTargetGen.v')
     run.dyn_compile(['MapTargetGen', 'MapTargetProps'])
-    if ok: run.suite('mapping-target', 'target_corr.py', [run.seed, n * (5 if run.tier == 'thorough' else 1), 'mapping'], 'TM')
+    run.suite('mapping-target', 'target_corr.py', [run.seed, n * (5 if run.tier == 'thorough' else 1), 'mapping'], 'TM')
     return ok
 
 def gen_cli(run):
